@@ -4,6 +4,7 @@ pub mod matching;
 pub mod notation;
 pub mod print;
 pub mod rules;
+pub mod splice;
 pub mod suppress;
 pub mod tables;
 
@@ -32,6 +33,11 @@ pub fn run(unit: &str, ctx: &Ctx, rng: &mut Rng, o: &mut Out) -> bool {
     "suppress_cli" => suppress::suppress_cli(ctx, rng, o),
     "c14_oracle" => suppress::oracle(ctx, rng, o),
     "c14_dump" => suppress::dump(ctx),
+    "interactive" => splice::interactive(ctx, rng, o),
+    "rewrite_splice" => splice::rewrite_splice(ctx, rng, o),
+    "edit_range" => splice::edit_range(ctx, rng, o),
+    "update_cli" => splice::update_cli(ctx, rng, o),
+    "c06_cli" => splice::c06_cli(ctx, rng, o),
     "cut" => matching::cut_unit(ctx, rng, o),
     "near_miss" => matching::near_miss_unit(ctx, rng, o),
     "rules_shared" => rules::rules_unit(ctx, rng, o, true),
@@ -53,6 +59,9 @@ pub fn exec_op(op: &str, a: &serde_json::Value) -> serde_json::Value {
     return v;
   }
   if let Some(v) = suppress::exec(op, a) {
+    return v;
+  }
+  if let Some(v) = splice::exec(op, a) {
     return v;
   }
   serde_json::json!({"harness_error": format!("op {op} is not replayable stand-alone")})
